@@ -79,8 +79,9 @@ def ranks_of(Y):
     return [1] + [int(G.shape[2]) for G in Y]
 
 
-def wellformed(Y, n=None, finite=True):
-    """None if Y is a well-formed TT (optionally of shape n), else a reason."""
+def wellformed(Y, n=None, finite=True, ints=False):
+    """None if Y is a well-formed TT (optionally of shape n), else a reason.
+    ints=True also accepts integer-typed cores (arguments, never results)."""
     if not isinstance(Y, list):
         return f'not a list: {type(Y).__name__}'
     if len(Y) == 0:
@@ -91,7 +92,8 @@ def wellformed(Y, n=None, finite=True):
             return f'core {k} is {type(G).__name__}'
         if G.ndim != 3:
             return f'core {k} has ndim {G.ndim}'
-        if not np.issubdtype(G.dtype, np.floating):
+        if not (np.issubdtype(G.dtype, np.floating) or (ints
+                and np.issubdtype(G.dtype, np.integer))):
             return f'core {k} has dtype {G.dtype}'
         if G.shape[0] != r:
             return f'core {k} left rank {G.shape[0]} != {r}'
